@@ -103,7 +103,7 @@ type typeFacts struct {
 	blankEq                                     bool // a tag spelt with blanks around '='
 	squash                                      bool // an inline field spelt `squash`
 	ifaceField, ifaceList, ifaceMap             bool // interface{} as field type, as element type of a list, of a map
-	tagOnIface                                  bool // N-C04-2: validate tag on a field of type interface{}
+	tagOnIface                                  bool // D61: validate tag on a field of type interface{}
 }
 
 func hasValidators(td *gen.TD) bool {
@@ -291,7 +291,7 @@ func (f *typeFacts) avoided() string {
 		{"D45", f.namedString}, {"D31", f.mapOfStructOrArr}, {"D42", f.ptrCollElems},
 		{"D23", f.tagOnPtr}, {"D30", f.ptrToColl}, {"D32", f.tagOnPtrToMap},
 		{"D35", f.mapWithValidator}, {"D41", f.tagOnArray}, {"D47", f.tagOnNamedString}, {"D49", f.ptrPtrValidator},
-		{"D55", f.inlineTags["map"]}, {"N-C04-2", f.tagOnIface},
+		{"D55", f.inlineTags["map"]}, {"D61", f.tagOnIface},
 	} {
 		if c.hit && open(c.id) {
 			return c.id
@@ -355,13 +355,13 @@ func runCase(c Case, r *runlog.R) error {
 		r.Discard()
 		return nil
 	}
-	if len(c.Dyn) > 0 && open("N-C04-1") {
-		// class of N-C04-1: a setting for an interface that holds a struct, an array or a nil map directly (not through a
+	if len(c.Dyn) > 0 && open("D60") {
+		// class of D60: a setting for an interface that holds a struct, an array or a nil map directly (not through a
 		// pointer) makes Unpack panic (it merges into the unaddressable value)
 		w0 := &walker{root: c.Cfg, varexp: c.VarExp, dyn: reg}
 		w0.walk(c.T, c.newValue(true).Elem(), pos{cfg: c.Cfg})
 		if w0.unaddr {
-			r.Excluded("N-C04-1")
+			r.Excluded("D60")
 			r.Discard()
 			return nil
 		}
@@ -442,6 +442,9 @@ func runCase(c Case, r *runlog.R) error {
 		// position in the result differs from the index of the setting it came from (which is what the error
 		// names), so list indices are not compared then.
 		listPolicy := c.Policy != 0 || hasPolicyTag(c.T)
+		for _, d := range c.Dyn {
+			listPolicy = listPolicy || hasPolicyTag(d)
+		}
 		named, ok := namedPath(uerr.Error())
 		match := false
 		if ok && named != "" {
@@ -729,7 +732,7 @@ func showGo(t *gen.Tree) string {
 
 var subTwin = runlog.Register(&runlog.Sub[Case]{
 	Name: "twin-differential",
-	Rule: "random struct types (reflect.StructOf over all primitive kinds, named variants, durations, regexps, pointers, slices, arrays, string-keyed maps, nested and inline structs, and 17 hand-written catalogue types with Validate()/InitDefaults/own tags; 9 of them have an InitDefaults that installs exactly one value failing validation - a map entry rejected by the element's Validate(), by a tag of the element struct or of a pointee, a list element / map entry / pointee / tagged field of a struct - which only the configuration can override) with validate tags (required, nonzero, positive, min=N, max=N, singly or in pairs, sometimes spelt with blanks around '=') on about a third of the fields whose kind the documentation defines them for (every second duration field), at any depth; parameters in every syntax the code reads them with: integers decimal, hexadecimal, octal (0o17 and 017), binary, with digit separators and signs, up to the 64-bit limits; floats with exponent, hexadecimal, bare point, sign; duration bounds in unit syntax (compound, fractional, signed) and as plain numbers of seconds (integral, fractional, negative, exponent form); settings on, below and above every bound. Inline fields of every kind the code accepts: about a quarter of the collection types below the top level (an eighth of the struct types, catalogue types included) are replaced by struct{C T `config:\",inline\"`} (a quarter of them spelt squash, a quarter with a named sibling field), whose setting is the list / object itself, and every second inline slice / array / map field carries a required / nonzero tag (inline maps only while D55 is not open). 1 case in 12 unpacks into a map, slice or array target (plain or catalogue type) instead of a struct. A pre-filled value (zero value in 1 of 6 cases); a configuration built from the type that mentions about half of the fields (explicit nil settings included; for maps other keys than the pre-filled / InitDefaults ones as a rule, in 1 of 4 draws the keys InitDefaults inserts); a global list policy in 1 of 3 cases and policy tags on slices; with VarExp (1 of 3) about a fifth of the settings are delivered through ${rN} references. Oracle: unpack configuration and pre-filled value into the twin type (no tags, no Validate methods, same InitDefaults) to get R; reference validators (documented meaning, applied through non-nil pointers, tags of inline fields included) walk R; all accept => Unpack into the real type succeeds with a result equal to R; one rejects => Unpack fails and the message quotes the path of a rejected field or of an enclosing one (nothing to quote for a validator of the target itself or an element of a collection target kept from the pre-filled value); tags of a collection field whose elements are not structs are also applied to the elements and such element-level rejections alone allow either verdict; whenever Unpack returns nil the returned value itself is walked. Non-trivial: a deciding validator (a rejecting one, or any if all accept) judges a value the configuration does not mention (default / InitDefaults) or sits behind a pointer, inside a collection or in an inline field. Distinct: hash of (type, pre-filled value, configuration, VarExp, policy).",
+	Rule: "random struct types (reflect.StructOf over all primitive kinds, named variants, durations, regexps, pointers, slices, arrays, string-keyed maps, nested and inline structs, and 17 hand-written catalogue types with Validate()/InitDefaults/own tags; 9 of them have an InitDefaults that installs exactly one value failing validation - a map entry rejected by the element's Validate(), by a tag of the element struct or of a pointee, a list element / map entry / pointee / tagged field of a struct - which only the configuration can override) with validate tags (required, nonzero, positive, min=N, max=N, singly or in pairs, sometimes spelt with blanks around '=') on about a third of the fields whose kind the documentation defines them for (every second duration field), at any depth; parameters in every syntax the code reads them with: integers decimal, hexadecimal, octal (0o17 and 017), binary, with digit separators and signs, up to the 64-bit limits; floats with exponent, hexadecimal, bare point, sign; duration bounds in unit syntax (compound, fractional, signed) and as plain numbers of seconds (integral, fractional, negative, exponent form); settings on, below and above every bound. Inline fields of every kind the code accepts: about a quarter of the collection types below the top level (an eighth of the struct types, catalogue types included) are replaced by struct{C T `config:\",inline\"`} (a quarter of them spelt squash, a quarter with a named sibling field), whose setting is the list / object itself, and every second inline slice / array / map field carries a required / nonzero tag (inline maps only while D55 is not open). 1 case in 12 unpacks into a map, slice or array target (plain or catalogue type; in a third of them map[string]interface{}, []interface{} or collections of those) instead of a struct. Values reached through an interface: in 1 case of 3 about a quarter of the fields are turned into interface{}, []interface{}, map[string]interface{}, [N]interface{} or map[string][]interface{} fields and a quarter of the collections of primitives into collections of interface{} (inline spellings and collection-level required / nonzero tags included); every second interface{} field carries a tag itself (required, nonzero, positive, min / max with a bound every numeric kind reads; only while D61 is not open); the pre-filled interfaces are nil or hold generic data (about 1 of 7 each), otherwise a typed value: a catalogue type with Validate() / InitDefaults / tags, a pointer or double pointer to one (nil pointers included), a reflect.StructOf struct with tagged fields (by value or behind a pointer), a typed slice / map / pointer to slice or map of such types, generic []interface{} / map[string]interface{} holding typed values again, or a pointer to a tagged struct that has an interface-typed field itself (two levels); the dynamic types are part of the case (dyn), valid and invalid values alike; the configuration leaves the interface unmentioned, or holds a setting built from the dynamic type of the pre-filled value (the code merges it into the held value) or generic data. The twin value holds the twin VALUE (no Validate, no tags) of the same shape in the interface; the walk follows interfaces by the dynamic Go type of what it finds (the types of the case, the types behind their pointers, generic data). A pre-filled value (zero value in 1 of 6 cases); a configuration built from the type that mentions about half of the fields (explicit nil settings included; for maps other keys than the pre-filled / InitDefaults ones as a rule, in 1 of 4 draws the keys InitDefaults inserts); a global list policy in 1 of 3 cases and policy tags on slices; with VarExp (1 of 3) about a fifth of the settings are delivered through ${rN} references. Oracle: unpack configuration and pre-filled value into the twin type (no tags, no Validate methods, same InitDefaults) to get R; reference validators (documented meaning, applied through non-nil pointers, tags of inline fields included) walk R; all accept => Unpack into the real type succeeds with a result equal to R; one rejects => Unpack fails and the message quotes the path of a rejected field or of an enclosing one (nothing to quote for a validator of the target itself or an element of a collection target kept from the pre-filled value); tags of a collection field whose elements are not structs are also applied to the elements and such element-level rejections alone allow either verdict; whenever Unpack returns nil the returned value itself is walked. Constructed away only while the finding is open: a rejecting Validate() of a value an interface holds directly (D59), a setting for an interface that holds a struct, an array or a nil map by value (D60: Unpack panics), tags on interface{} fields (D61). Non-trivial: a deciding validator (a rejecting one, or any if all accept) judges a value the configuration does not mention (default / InitDefaults) or sits behind a pointer, inside a collection or in an inline field. Distinct: hash of (type, pre-filled value, configuration, VarExp, policy, dynamic types).",
 	Gen:  genCase,
 	Run:  runCase,
 })
